@@ -138,12 +138,17 @@ func runC20(c *Ctx) {
 
 	if f := p.Method(pkgKS, "KeyStorage", "getKey"); c.NeedFunc("R20.4", f, ksT+".getKey") {
 		dec := "call:github.com/ProtonMail/gopenpgp/v2/helper.DecryptBinaryMessageArmored(*)"
-		c.MustCut("R20.4", "return key ⊣ {verifyKeySlots(decrypted key) == nil}", f, ReturnsNonNil(0), CutSpec{Edges: FactEdge("nil(call:" + ksT + ".verifyKeySlots(param#0," + dec + "#0))")}, 1)
+		// (verifyKeySlots is not an anchor: the normal form inlines it, so the same obligations hold whether
+		// the comparison lives in a helper or in getKey itself) a key is released only through the matching
+		// outcome of an unconditional constant-time comparison of hashSlots(decrypted key) with the stored tag
+		cmp := "call:crypto/subtle.ConstantTimeCompare(call:" + ksT + ".hashSlots(param#0," + dec + "#0),call:(*api/key_storage.Storage).GetKeysHmacHash(param#0.underlying))"
+		c.MustCut("R20.4", "return key ⊣ {verifyKeySlots(decrypted key) == nil}", f, ReturnsNonNil(0), CutSpec{Edges: FactEdge("ne("+cmp+",const:0)", "eq("+cmp+",const:1)")}, 1)
+		c.Check(len(p.Calls(f, "crypto/subtle.ConstantTimeCompare")) == 1 && len(p.Calls(f, "bytes.Equal")) == 0, "R20.4", FuncName(f)+" :: the tag is compared once, in constant time", fpos(f), "yes", "tag comparison changed")
 
 		okRet := true
 
 		for _, in := range Find(f, ReturnsNonNil(0)) {
-			if !Glob(dec+"#0", p.Desc(in.(*ssa.Return).Results[0])) {
+			if !p.LeavesMatch(in.(*ssa.Return).Results[0], dec+"#0") {
 				okRet = false
 			}
 		}
@@ -164,12 +169,6 @@ func runC20(c *Ctx) {
 		dcalls := p.Calls(f, "github.com/ProtonMail/gopenpgp/v2/helper.DecryptBinaryMessageArmored")
 		c.Check(len(dcalls) == 1 && p.ArgDesc(dcalls[0], 0) == "param#2" && p.FieldOfLeaves(CallArgs(dcalls[0])[2], "EncryptedKey", "lookup(call:(*api/key_storage.Storage).GetKeySlots(param#0.underlying),param#1)#0", "lookup(call:(*api/key_storage.Storage).GetKeySlots(param#0.underlying),param#1)"),
 			"R20.4", FuncName(f)+" :: decrypts the requested slot's blob with the presented private key", fpos(f), "yes", "decrypts something else")
-	}
-
-	if f := p.Method(pkgKS, "KeyStorage", "verifyKeySlots"); c.NeedFunc("R20.4", f, ksT+".verifyKeySlots") {
-		cmp := "call:crypto/subtle.ConstantTimeCompare(call:" + ksT + ".hashSlots(param#0,param#1),call:(*api/key_storage.Storage).GetKeysHmacHash(param#0.underlying))"
-		c.MustCut("R20.4", "return nil ⊣ {ConstantTimeCompare(hashSlots(key), stored tag) != 0}", f, ReturnsNilConst(0), CutSpec{Edges: FactEdge("ne("+cmp+",const:0)", "eq("+cmp+",const:1)")}, 1)
-		c.Check(len(Find(f, ReturnsNilConst(0))) == 1 && len(Find(f, ReturnsNonNil(0))) == 1, "R20.4", FuncName(f)+" :: exactly one accept and one reject exit", fpos(f), "yes", "verification has additional exits")
 	}
 
 	if f := p.Method(pkgKS, "KeyStorage", "UnmarshalBinary"); c.NeedFunc("R20.4", f, ksT+".UnmarshalBinary") {
